@@ -30,7 +30,10 @@ ProgInt2 == <<32, 10, 17, 255, 144, 17, 69, 241, 31, 144, 21, 44, 251, 239, 64, 
 \* third program: clears the key enable bit for a few instructions while IE stays set, pauses with STOP while interrupts are enabled
 \* (the continue key resumes it), then finishes:  ...; EI; LD R1,5; INC R2; MOV (0xF9),0; NOP; NOP; MOV (0xF9),1; NOP; STOP; INC R2; ADD R0,R2; PUSH R1; POP R1; DI; STOP
 ProgInt3 == <<32, 10, 16, 255, 144, 16, 68, 240, 31, 144, 20, 44, 251, 239, 64, 251, 1, 31, 249, 8, 251, 5, 17, 70, 251, 0, 31, 249, 2, 2, 251, 1, 31, 249, 2, 1, 70, 104, 17, 21, 12, 1>>
-Prog == CASE Which = 1 -> ProgInt [] Which = 2 -> ProgInt2 [] Which = 3 -> ProgInt3
+\* fourth program: the routine re-enables interrupts itself (EI after the counter update), so a second press inside the routine nests:
+\* isr: PUSH R1; LD R1,(0x90); INC R1; ST (0x90),R1; EI; NOP; INC R1; NOP; POP R1; RETI    main: LDSP 0xEF; MOV (0xF9),1; EI; LD R0,4; l: INC R2; DEC R0; JZC l; DI; STOP
+ProgInt4 == <<32, 14, 17, 255, 144, 17, 69, 241, 31, 144, 8, 2, 69, 2, 21, 44, 251, 239, 64, 251, 1, 31, 249, 8, 251, 4, 16, 70, 80, 38, 252, 12, 1>>
+Prog == CASE Which = 1 -> ProgInt [] Which = 2 -> ProgInt2 [] Which = 3 -> ProgInt3 [] Which = 4 -> ProgInt4
 MaxCont == IF Which = 3 THEN 1 ELSE 0
 Start == SetInput(LoadF(MachineInit, Prog, 16, 255), 0, 3)
 
